@@ -1,21 +1,24 @@
 (* model runner for the correspondence check of C28 (float64-faithful instance).
-   A case is one byte string: rate(4) ts0(4) seq0(2) then per sample
-   dur_ns(6) dropped(2) npk(2), all big endian.  The observation is one byte
-   string: per sample npk(2) then per packet seq(2) ts(4). *)
+   A case is one byte string: rate(4) ts0(4) seq0(2) then per call
+   kind(1) dur_ns(6) dropped(2) npk(2), all big endian; kind 0 = WriteSample,
+   kind 1 = GeneratePadding(npk).  The observation is one byte string: per call
+   npk(2) then per packet seq(2) ts(4). *)
 From Coq Require Import String NArith ZArith QArith Bool List.
 Import ListNotations.
 From Verif Require Import Common.V Common.Base Common.BytesUtil Model.SampleTrack.
 Open Scope N_scope.
 
-Fixpoint dec_samples (fuel : nat) (l : list N) : option (list sample) :=
+Fixpoint dec_samples (fuel : nat) (l : list N) : option (list op) :=
   match fuel with
   | O => None
   | S f =>
       match l with
       | [] => Some []
-      | d5 :: d4 :: d3 :: d2 :: d1 :: d0 :: n1 :: n0 :: k1 :: k0 :: t =>
-          option_map (cons (mkSample (Z.of_N (be_val [d5; d4; d3; d2; d1; d0])) (be_val [n1; n0])
-                                     (N.to_nat (be_val [k1; k0]))))
+      | kind :: d5 :: d4 :: d3 :: d2 :: d1 :: d0 :: n1 :: n0 :: k1 :: k0 :: t =>
+          option_map (cons (if kind =? 0
+                            then OSample (mkSample (Z.of_N (be_val [d5; d4; d3; d2; d1; d0])) (be_val [n1; n0])
+                                                   (N.to_nat (be_val [k1; k0])))
+                            else OPad (be_val [k1; k0])))
                      (dec_samples f t)
       | _ => None
       end
